@@ -245,6 +245,7 @@ class Facts:
                 self.adts[d['crate'] + '::' + a['name']] = a
         self._cg = None
         self.aliases = {}
+        self.known_fns = None
         self._resolve_renames()
 
     def _resolve_renames(self):
@@ -254,6 +255,7 @@ class Facts:
         if not os.path.exists(path):
             return
         known = json.load(open(path))
+        self.known_fns = set(known)
         missing = [q for q in known if q not in self.by_qname]
         if not missing:
             return
@@ -297,9 +299,9 @@ class Facts:
     def closures_of(self, fn):
         """Closures (transitively) defined inside fn."""
         out = []
-        prefix = fn.id + '::{closure#'
+        prefixes = [fn.id + '::{closure#'] + [g + '::{closure#' for g in (fn.mir or {}).get('inlined_fns', [])]
         for f in self.fns.values():
-            if f.id.startswith(prefix):
+            if any(f.id.startswith(p) for p in prefixes):
                 out.append(f)
         return out
 
@@ -390,6 +392,7 @@ class Facts:
         levels deep, each with their closures: the functions an extract-method refactoring may spread a body over.
         For census-type rules (which callees, which constructors, which HIR constructs)."""
         seen = _seen if _seen is not None else {}
+        fn = self.fns.get(fn.id, fn)      # the plain function, also when handed a normalised / inlined view
         if fn.id in seen:
             return list(seen.values())
         seen[fn.id] = fn
@@ -408,7 +411,15 @@ class Facts:
                 self.family(g, depth - 1, seen)
         return list(seen.values())
 
-    def inlined(self, fn, depth=2, _stack=(), keep=()):
+    def normalised(self, fn):
+        """`fn` with the private helpers that did not exist in the pinned tree (rules/anchors.json) and are not recognised
+        renames spliced in: what a rule anchored on `fn` looked at before somebody extracted a method from it.  Identity
+        on the pinned tree."""
+        if self.known_fns is None or fn is None or not fn.mir:
+            return fn
+        return self.inlined(fn, depth=3, only_new=True)
+
+    def inlined(self, fn, depth=2, _stack=(), keep=(), only_new=False):
         """`fn` with the bodies of the private helpers of its own module spliced into its MIR (call -> parameter
         assignments + goto entry; return -> assignment of the result + goto continuation), `depth` levels deep.
         Extract-method refactorings are invisible to path and data-flow rules that look at this view.  Only non-public,
@@ -419,7 +430,7 @@ class Facts:
             return fn
         # a kept function that was renamed (recognised by signature) is kept under its new name
         keep = tuple(keep) + tuple(new.split('::')[-1] for old, new in self.aliases.items() if old.split('::')[-1] in keep)
-        key = (fn.id, depth, tuple(keep))
+        key = (fn.id, depth, tuple(keep), only_new)
         cache = self.__dict__.setdefault('_inl', {})
         if key in cache:
             return cache[key]
@@ -457,13 +468,17 @@ class Facts:
                 continue
             if g.qname.split('::')[-1] in keep:
                 continue
+            if only_new and (g.qname in self.known_fns or g.qname in self.aliases.values()):
+                continue
             if g.d.get('impl_trait') or not g.qname.startswith(mod.rsplit('::', 1)[0] if fn.kind == 'AssocFn' else mod):
                 continue
             if len(g.mir['blocks']) > 120:
                 continue
-            gi = self.inlined(g, depth - 1, _stack + (fn.id,), keep)
+            gi = self.inlined(g, depth - 1, _stack + (fn.id,), keep, only_new)
             off, boff = len(locals_), len(blocks)
             mir.setdefault('ret_locals', [0]).append(off)
+            mir.setdefault('inlined_fns', []).append(g.id)
+            mir['inlined_fns'] += [x for x in gi.mir.get('inlined_fns', []) if x not in mir['inlined_fns']]
             mir['ret_locals'] += [off + r for r in gi.mir.get('ret_locals', [0]) if r != 0]
             locals_.extend(copy.deepcopy(gi.mir['locals']))
             for gb in gi.mir['blocks']:
